@@ -34,7 +34,7 @@ def run(ctx, chk):
         'generation>0': ('SegmentNotInitialized',),
         'segsize>=%d' % H: ('SegmentMalformed',),
         'mmap==MAP_FAILED': ('Syscall', 'mmap SHM segment'),
-        'segsize<%d' % full: ('SegmentMalformed',),
+        'segsize>=%d' % full: ('SegmentMalformed',),
     }
     seen_fail = {}
     ok_rows = []
@@ -59,7 +59,7 @@ def run(ctx, chk):
         f = failing[0]
         want = expect_fail.get(f)
         seen_fail[f] = row['result']
-        rule = 'C16.V2' if f.startswith(('open', 'read', 'mmap')) else 'C16.V1' if not f.startswith('segsize<') else 'C16.V3'
+        rule = 'C16.V2' if f.startswith(('open', 'read', 'mmap')) else 'C16.V1' if f != 'segsize>=%d' % full else 'C16.V3'
         chk.ob(rule, 'open:fail:%s' % f, want is not None and row['result'] == want, where,
                'failing check %s -> %s (documented %s)' % (f, row['result'], want))
     for f in expect_fail:
@@ -69,7 +69,7 @@ def run(ctx, chk):
     # ---- V3 the record pointer is formed only after the size test passed
     for row in m.rows:
         if row['adds']:
-            passed = [a for a, ok in row['atoms'] if a == 'segsize<%d' % full and ok]
+            passed = [a for a, ok in row['atoms'] if a == 'segsize>=%d' % full and ok]
             off = row['adds'][0]['args'][1]
             chk.ob('C16.V3', 'open:record-pointer-after-size-test', bool(passed), row['adds'][0]['site'][2],
                    'pointer advanced by %s bytes on a path where the header+record size test %s' % (fmt(off), 'passed' if passed else 'WAS NOT MADE'))
